@@ -127,6 +127,19 @@ if "Rec" not in doing.Doer.Registry:
         return True if (ctx == BENTER or ctx == "benter") else None
 
 
+if "Acc" not in doing.Doer.Registry:
+    @doing.doify("Acc", ioinits=odict(acclog=odict(ipath="framer.me.acclog", ival=[])))
+    def _acc(self, **kwa):
+        """appends to the list held in the share framer.<this framer>.acclog (created from the MUTABLE default ival []) and
+        records the list's length: every framer - every clone too - must see only its own appends."""
+        act = self._act
+        frame = act.frame
+        lst = self.acclog.value
+        lst.append(1)
+        EVENTS.append((frame.framer.name, frame.name, _ctxname(act.context), "acc:%d" % len(lst)))
+        return None
+
+
 def watch_fiats():
     """Harness-side observation of fiat return values: wrap the five Fiat actor classes' action methods
     (idempotent) so each call appends ('~fiat', <slave name>, <kind>, str(result)) to EVENTS."""
